@@ -41,6 +41,19 @@ def tier():
     return t
 
 
+def replay_request():
+    """--replay <file>: re-run the check and report whether the violation recorded in <file> (by its key) occurs again.
+
+    A replay run writes its evidence to a scratch directory (the evidence of the property is left alone), prints the recorded
+    violation, then `REPLAY property=<id> key=<key> reproduced=yes|no` and exits 1 / 0."""
+    for i, a in enumerate(sys.argv):
+        if a == "--replay" and i + 1 < len(sys.argv):
+            return sys.argv[i + 1]
+        if a.startswith("--replay="):
+            return a.split("=", 1)[1]
+    return None
+
+
 def seed():
     try:
         return int(os.environ.get("VERIF_SEED", "0"))
@@ -322,6 +335,17 @@ class Check:
         from . import findings
 
         self.findings = findings.load()
+        self.replay = None
+        rp = replay_request()
+        if rp:
+            with open(rp) as f:
+                self.replay = json.load(f)
+            if self.replay.get("property") != pid:
+                raise MachineryError("replay file %s belongs to property %s" % (rp, self.replay.get("property")))
+            import tempfile
+
+            os.environ["VERIF_EVIDENCE_DIR"] = tempfile.mkdtemp(prefix="replay_%s_" % pid)
+            print("REPLAYING property=%s key=%s\n  %s" % (pid, self.replay.get("key"), str(self.replay.get("description"))[:300]))
 
     # -- coverage ---------------------------------------------------------
     def add_tlc(self, name, res, note=""):
@@ -419,6 +443,15 @@ class Check:
             for fn in os.listdir(rdir):
                 if fn.startswith(self.pid + "-"):
                     os.remove(os.path.join(rdir, fn))
+        if self.replay is not None:
+            again = [v for v in self.violations if v[0] == self.replay.get("key")]
+            for key, desc, rep in again[:3]:
+                print("  key=%s  %s" % (key, desc))
+            print("REPLAY property=%s key=%s reproduced=%s" % (self.pid, self.replay.get("key"), "yes" if again else "no"))
+            import shutil
+
+            shutil.rmtree(evdir, ignore_errors=True)
+            return 1 if again else 0
         for key, what in self.known:
             print("KNOWN-FINDING: property=%s %s [%s]" % (self.pid, what, key))
         if self.violations:
